@@ -29,13 +29,7 @@ pub fn judge(expected: &Value, obs: &Value) -> Option<&'static str> {
     }
 }
 
-fn poisoned() -> bool {
-    use temporal_rs::{Calendar, TimeZone, ZonedDateTime};
-    match ZonedDateTime::try_new(0, Calendar::default(), TimeZone::default()) {
-        Ok(z) => std::panic::catch_unwind(move || z.year().is_err()).unwrap_or(true),
-        Err(_) => false,
-    }
-}
+fn poisoned() -> bool { temporal_rs::verif::provider_lock_poisoned() }
 
 fn replay(a: &[String]) {
     let from: usize = a.get(2).map(|s| s.parse().expect("from")).unwrap_or(0);
@@ -57,7 +51,7 @@ fn replay(a: &[String]) {
             writeln!(f, "{}", json!({"i": i + 1, "op": op, "cls": c.get("cls").cloned().unwrap_or(Value::Null), "why": why,
                 "args": c["args"], "expected": c["out"], "observed": obs})).unwrap();
         }
-        if obs["wrapper"]["kind"] == "panic" && !op.starts_with("Wrap.capi.") && poisoned() { poisoned_at = Some(i); break; }
+        if !op.starts_with("Wrap.capi.") && poisoned() { poisoned_at = Some(i); break; }
     }
     println!("{}", json!({"cases": done, "total": n, "mismatches": mism, "samples": samples, "poisoned_at": poisoned_at}));
 }
